@@ -114,9 +114,18 @@ def driver_from_ir(ir, traits):
             uses.append(fn)
             L.append("static void %s() {" % fn)
             for v in t["enumeration"].get("value", []):
+                ev = const_of(v.get("value", {}))
                 for sp in enum_spellings(mod, chain + [t], v):
                     L.append("  (void)%s::%s;" % (en, sp))
                     counts["enumerators"] += 1
+                    if isinstance(ev, int) and not isinstance(ev, bool) and -(1 << 63) <= ev < (1 << 64):
+                        if ev >= (1 << 63):
+                            L.append("  static_assert(static_cast<unsigned long long>(%s::%s) == %dULL, \"enumerator differs from the "
+                                     "front end's value\");" % (en, sp, ev))
+                        else:
+                            lit = "(-9223372036854775807LL - 1)" if ev == -(1 << 63) else "%dLL" % ev
+                            L.append("  static_assert(static_cast<long long>(%s::%s) == %s, \"enumerator differs from the front end's "
+                                     "value\");" % (en, sp, lit))
             if traits:
                 L.append("  %s r_ = static_cast</**/ %s>(0); (void)TryToGetEnumFromName(\"X\", &r_); (void)TryToGetNameFromEnum(r_); "
                          "(void)EnumIsKnown(r_); std::ostringstream os_; os_ << r_;" % (en, en))
@@ -191,8 +200,65 @@ def shape_module(rng):
     return "\n".join(lines) + "\n"
 
 
+def edge_value(rng):
+    k = rng.choice([7, 8, 15, 16, 31, 31, 32, 32, 63, 64])
+    v = rng.choice([1, -1]) * (1 << k) + rng.choice([0, 0, -1, 1])
+    return max(-(1 << 63), min((1 << 64) - 1, v))
+
+
+def constants_module(rng):
+    """Compile-time constants, enumerators and `tag == constant` conditions at the 2^k edges of the C++ integer
+    types, written directly and as folded expressions: the driver static_asserts each against the front end's
+    value (literal rendering has special cases exactly there)."""
+    lines = ['[$default byte_order: "LittleEndian"]', ""]
+    signed_vals, unsigned_vals = set(), set()
+    for _ in range(rng.randint(3, 8)):
+        v = edge_value(rng)
+        (signed_vals if v < (1 << 63) else unsigned_vals).add(v)
+    if rng.random() < 0.7:
+        sv = sorted(signed_vals | {0})
+        lines.append("enum Edge:")
+        for i, v in enumerate(sv):
+            lines.append("  EDGE_%d = %d" % (i, v))
+        lines.append("")
+    if unsigned_vals or rng.random() < 0.3:
+        lines.append("enum Big:")
+        for i, v in enumerate(sorted(unsigned_vals | {0, 2 ** 64 - 1})):
+            lines.append("  BIG_%d = %d" % (i, v))
+        lines.append("")
+    lines.append("struct Consts:")
+    lines.append("  0 [+8]  Int  tag")
+    lines.append("  0 [+8]  UInt  utag")
+    off = 8
+    for i in range(rng.randint(3, 9)):
+        v = edge_value(rng)
+        form = rng.random()
+        if form < 0.5:
+            e = str(v)
+        elif form < 0.7:
+            d = rng.choice([1, 2, 255, 65536])
+            e = "%d + %d" % (v - d, d) if -(1 << 63) <= v - d else str(v)
+        elif form < 0.85:
+            e = "$max(%d, %d)" % (v, v - 1) if -(1 << 63) <= v - 1 else str(v)
+        else:
+            e = "(true ? %d : 0)" % v
+        lines.append("  let c%d = %s" % (i, e))
+        if rng.random() < 0.4 and -(1 << 63) <= v < (1 << 63):
+            lines.append("  if tag == %d:" % v)
+            lines.append("    %d [+1]  UInt  when_c%d" % (off, i))
+            off += 1
+        elif rng.random() < 0.2 and 0 <= v:
+            lines.append("  if utag == %d:" % v)
+            lines.append("    %d [+1]  UInt  when_u%d" % (off, i))
+            off += 1
+    lines.append("")
+    return "\n".join(lines) + "\n"
+
+
 def gen_case(rng, corpus):
     r = rng.random()
+    if r < 0.15:
+        return "constants", {"m.emb": constants_module(rng)}
     if r < 0.4:
         return "shape", {"m.emb": shape_module(rng)}
     if r < 0.7:
